@@ -303,6 +303,22 @@ Record rf_in := {
   r_has_mac : bool          (* the packet has a Dot15d4 layer (fcf_srcaddrmode exists) *)
 }.
 
+(** Where the 8-byte source and destination of nonce and authenticated header come from
+    (generateNonce / generateAuth): the caller's argument when given, else the 802.15.4 header of
+    the packet when the corresponding addressing mode is "long" (3); otherwise there is none and
+    the outcome is (packet, False). [None] as header = the packet has no 802.15.4 layer
+    (rf4ce_only). Short addresses and absent address fields never provide an address. *)
+Inductive addr_mode :=
+| AMNone                      (* addressing mode 0: field absent *)
+| AMShort (a : bytes)         (* mode 2: 16-bit address *)
+| AMLong (a : bytes).         (* mode 3: 64-bit address, little endian as pack("<Q", ...) *)
+
+Definition rf_header_long (h : option addr_mode) : option bytes :=
+  match h with Some (AMLong a) => Some a | _ => None end.
+
+Definition rf_resolve (arg : option bytes) (h : option addr_mode) : option bytes :=
+  match arg with Some a => Some a | None => rf_header_long h end.
+
 Inductive rf_out :=
 | RPkt (b : bytes)                  (* encrypt: the packet *)
 | RTuple (b : bytes) (ok : bool)    (* (packet, flag) *)
@@ -342,6 +358,14 @@ Definition rf_parse (npre : nat) (src dst : option bytes) (has_mac : bool) (w : 
             r_has_layer := negb (Nat.eqb (length rest - 4 - hl - ml) 0);
             r_src := src; r_dst := dst; r_has_mac := has_mac |}
   end.
+
+(** the packet [x] with the addresses the manager will use, given the caller's arguments and the
+    addressing of the 802.15.4 header *)
+Definition rf_with_addrs (x : rf_in) (asrc adst : option bytes) (hsrc hdst : option addr_mode) : rf_in :=
+  {| r_pre := r_pre x; r_fctl := r_fctl x; r_fc := r_fc x; r_hdr := r_hdr x; r_payload := r_payload x;
+     r_mic := r_mic x; r_mic_none := r_mic_none x; r_has_layer := r_has_layer x;
+     r_src := rf_resolve asrc hsrc; r_dst := rf_resolve adst hdst;
+     r_has_mac := match hsrc with Some _ => true | None => false end |}.
 
 Section RF4CE.
   Variable E : bytes -> bytes -> bytes.
@@ -585,9 +609,13 @@ Definition rf_roundtrip (v : variant) (ek dk : bytes) (x : rf_in) (dsrc ddst : o
            end in
   (e, d).
 
-Definition check_rf (c : bool * bytes * bytes * rf_in * option bytes * option bytes * rf_out * rf_out) : bool :=
-  let '(legacy, ek, dk, x, dsrc, ddst, oe, od) := c in
-  let '(me, md) := rf_roundtrip {| v_legacy := legacy |} ek dk x dsrc ddst in
+(** (legacy, enc key, dec key, packet, caller's source / destination for encrypt, header addressing,
+    caller's source / destination for decrypt, observed encrypt result, observed decrypt result) *)
+Definition check_rf (c : bool * bytes * bytes * rf_in * option bytes * option bytes
+                         * option addr_mode * option addr_mode * option bytes * option bytes * rf_out * rf_out) : bool :=
+  let '(legacy, ek, dk, x, asrc, adst, hsrc, hdst, dasrc, dadst, oe, od) := c in
+  let '(me, md) := rf_roundtrip {| v_legacy := legacy |} ek dk (rf_with_addrs x asrc adst hsrc hdst)
+                                (rf_resolve dasrc hsrc) (rf_resolve dadst hdst) in
   rf_out_eqb me oe && rf_out_eqb md od.
 
 (** class of decrypt on wire bytes: 0 rejected, 1 accepted, 3.. exception, 9 outside the domain *)
@@ -603,10 +631,14 @@ Definition rf_wire_class (v : variant) (key : bytes) (npre : nat) (src dst : opt
               end
   end.
 
-(** (legacy, key, npre, src, dst, has_mac, wire, observed classes for each bit of the NWK part) *)
-Definition check_rf_sweep (c : bool * bytes * nat * option bytes * option bytes * bool * bytes * list N) : bool :=
-  let '(legacy, key, npre, src, dst, has_mac, w, obs) := c in
-  sweep_ok (fun i => rf_wire_class {| v_legacy := legacy |} key npre src dst has_mac (flip_bit (8 * npre + i) w)) 0 obs.
+(** (legacy, key, npre, caller's source / destination, header addressing, wire, observed classes for
+    each bit of the NWK part) *)
+Definition check_rf_sweep (c : bool * bytes * nat * option bytes * option bytes
+                               * option addr_mode * option addr_mode * bytes * list N) : bool :=
+  let '(legacy, key, npre, asrc, adst, hsrc, hdst, w, obs) := c in
+  let has_mac := match hsrc with Some _ => true | None => false end in
+  sweep_ok (fun i => rf_wire_class {| v_legacy := legacy |} key npre (rf_resolve asrc hsrc) (rf_resolve adst hdst)
+                                   has_mac (flip_bit (8 * npre + i) w)) 0 obs.
 
 (** packet without RF4CE_Hdr: (legacy, key, observed encrypt result, observed decrypt result) *)
 Definition check_rf_nohdr (c : bool * bytes * rf_out * rf_out) : bool :=
@@ -614,9 +646,11 @@ Definition check_rf_nohdr (c : bool * bytes * rf_out * rf_out) : bool :=
   rf_out_eqb (rf_encrypt_top aes128_enc {| v_legacy := legacy |} key None) oe &&
   rf_out_eqb (rf_decrypt_top aes128_enc {| v_legacy := legacy |} key None) od.
 
-(** RF4CE decrypt of a given frame: (legacy, key, input, observed result) *)
-Definition check_rf_dec (c : bool * bytes * rf_in * rf_out) : bool :=
-  let '(legacy, key, x, od) := c in rf_out_eqb (rf_decrypt aes128_enc {| v_legacy := legacy |} key x) od.
+(** RF4CE decrypt of a given frame: (legacy, key, packet, caller's addresses, header addressing, observed) *)
+Definition check_rf_dec (c : bool * bytes * rf_in * option bytes * option bytes
+                             * option addr_mode * option addr_mode * rf_out) : bool :=
+  let '(legacy, key, x, asrc, adst, hsrc, hdst, od) := c in
+  rf_out_eqb (rf_decrypt aes128_enc {| v_legacy := legacy |} key (rf_with_addrs x asrc adst hsrc hdst)) od.
 
 (** Unifying: (legacy, enc key, dec key, frame, observed bytes of encrypt, of decrypt(encrypt) in
     memory, of decrypt(bytes(encrypt))) *)
